@@ -425,34 +425,46 @@ Definition guard_core (c : c16case) : bool :=
   | KG _ _ => false
   end.
 
-(* ---------- known-finding classes ---------- *)
-(* a Duration whose seconds or whose total lie beyond the int64 nanosecond range (about 292 years):
-   AsDuration saturates *)
-Fixpoint has_sat_duration (x : cval) : bool :=
+(* ---------- scope of the soundness proof beyond the guard ---------- *)
+(* a Duration whose nanos field lies outside int32 (impossible for a real message: the field is an int32; the
+   tree type carries arbitrary integers).  DurationValueWithin is the exact distance on every other Duration,
+   whatever its seconds (ToleranceProofs.duration_accepts_iff_within); before /repo's (seconds, nanos) repair
+   this predicate was "beyond the int64 nanosecond range" and a known-finding class *)
+Fixpoint has_wide_nanos (x : cval) : bool :=
   match x with
   | CS _ => false
   | CM ty _ fs _ =>
-      (String.eqb ty dur_full && negb (in64 (get_int "seconds" fs * giga) && in64 (total_nanos fs)))
-      || existsb (fun kv : string * cval => let (_, a) := kv in has_sat_duration a) fs
-  | CL l => existsb has_sat_duration l
-  | CMap m => existsb (fun e : cscalar * cval => let (_, a) := e in has_sat_duration a) m
+      (String.eqb ty dur_full && negb (in32 (get_int "nanos" fs)))
+      || existsb (fun kv : string * cval => let (_, a) := kv in has_wide_nanos a) fs
+  | CL l => existsb has_wide_nanos l
+  | CMap m => existsb (fun e : cscalar * cval => let (_, a) := e in has_wide_nanos a) m
   end.
-Definition opt_sat (x : option cval) : bool := match x with Some a => has_sat_duration a | None => false end.
+Definition opt_wide (x : option cval) : bool := match x with Some a => has_wide_nanos a | None => false end.
 Definition is_dur (c : vcfg) : bool := match c with VDur _ => true | _ => false end.
 
-(* class 1: a configuration containing DurationValueWithinP (a ratio test: neither reflexive nor
-   symmetric); class 2: DurationValueWithin on a pair holding a Duration beyond +-292 years *)
-Definition obs_class (x y : option cval) (o : obs) : option Z :=
+(* [obs_scope] = None: the observation is one the soundness theorem speaks about (no DurationValueWithinP;
+   int32 nanos under DurationValueWithin) *)
+Definition obs_scope (x y : option cval) (o : obs) : option Z :=
   match o with
   | OEq e _ =>
       if has_durp e then Some 1
-      else if existsb is_dur (cfg_vs e) && (opt_sat x || opt_sat y) then Some 2
+      else if existsb is_dur (cfg_vs e) && (opt_wide x || opt_wide y) then Some 2
       else None
   | OComb _ _ _ _ => None
   | OTree t _ =>
       if existsb is_durp (tree_leaves t) then Some 1
-      else if existsb is_dur (tree_leaves t) && (opt_sat x || opt_sat y) then Some 2
+      else if existsb is_dur (tree_leaves t) && (opt_wide x || opt_wide y) then Some 2
       else None
+  end.
+
+(* ---------- known-finding classes ---------- *)
+(* class 1: a configuration containing DurationValueWithinP (a ratio test: neither reflexive nor symmetric).
+   (class 2, DurationValueWithin beyond +-292 years, is gone: repaired in /repo) *)
+Definition obs_class (x y : option cval) (o : obs) : option Z :=
+  match o with
+  | OEq e _ => if has_durp e then Some 1 else None
+  | OComb _ _ _ _ => None
+  | OTree t _ => if existsb is_durp (tree_leaves t) then Some 1 else None
   end.
 
 Definition class_core (c : c16case) : option Z :=
